@@ -91,6 +91,20 @@ def views(case):
     if st_ == "err":
         raise Skip()
     _check_views(res, n, ctx, "emulator")
+    # readouts are values of their own: they stay usable after the result object is gone
+    import gc
+
+    kept = list(res.readouts)
+    want_kept = [(x.index, x.subcircuit.index, int(x.as_int), x.as_str) for x in kept]
+    had_readouts = bool(kept)
+    del res
+    gc.collect()
+    try:
+        got_kept = [(x.index, x.subcircuit.index, int(x.as_int), x.as_str) for x in kept]
+    except Exception as e:  # noqa: BLE001 - whatever it is, the readouts stopped working
+        raise Violation("readouts-die-with-result", f"after the ExecutionResult was dropped: {type(e).__name__}: {e}\n{ctx}")
+    if got_kept != want_kept:
+        raise Violation("readouts-die-with-result", f"{got_kept}\nexpected {want_kept}\n{ctx}")
     ch = gen.Chooser(case["outs_seed"])
     outs = [ch.int(0, 2**n - 1) for _ in visits]
     st_, ri = guard(parse_jaqal_output_list, c, list(outs), what="parse_jaqal_output_list(ints)")
@@ -121,7 +135,7 @@ def views(case):
     for x, y in zip(ri.subcircuits, rs.subcircuits):
         if not np.array_equal(np.asarray(x.relative_frequency_by_int), np.asarray(y.relative_frequency_by_int)):
             raise Violation("int-vs-string-outputs", f"frequencies of subcircuit {x.index}\n{ctx}")
-    nonpal = any(bits(k, n) != bits(k, n)[::-1] for k in outs) or any(bits(x.as_int, n) != bits(x.as_int, n)[::-1] for x in res.readouts)
+    nonpal = any(bits(k, n) != bits(k, n)[::-1] for k in outs) or any(bits(x[2], n) != bits(x[2], n)[::-1] for x in want_kept)
     return {"nontrivial": n >= 2 and nonpal, "classes": ["qubits:%d" % n, "visits:%s" % min(len(visits), 5)], "key": text + repr(outs), "sample": {"text": text, "outputs": outs}}
 
 
